@@ -6,32 +6,47 @@ import lib, troute
 MODULES = ["ImathVerif.Props.C07", "ImathVerif.Props.C07GJ", "ImathVerif.Props.C07Algo", "ImathVerif.Props.C07Link"]
 LEAF_IDX = os.path.join(troute.GEN, "index_leaf.txt")
 
-# theorems that must exist (a deleted pair theorem is a broken obligation); the files contain more
+# theorems that must exist (a deleted theorem is a broken obligation): EVERY theorem of the four property files (audit W10).
+# Not here: `gj_hok`, `gj_herr`, `gjF_eq` — true by construction of the instantiation (both members read off the same model
+# function), moved to Lemmas/C07LinkInst.lean as helper lemmas (audit W2).
 REQUIRED = {
-    "ImathVerif.Props.C07": [
-        "V2_normalizedExc_ok", "V2_normalizedExc_error", "V2_normalized_failure", "V2_normalizeExc_ok", "V2_normalizeExc_error",
-        "V3_normalizedExc_ok", "V3_normalizedExc_error", "V3_normalized_failure", "V3_normalizeExc_ok", "V3_normalizeExc_error",
-        "V4_normalizedExc_ok", "V4_normalizedExc_error", "V4_normalized_failure", "V4_normalizeExc_ok", "V4_normalizeExc_error",
-        "V3_ofV4Exc_ok", "V3_ofV4Exc_error", "V3_ofV4Exc_tight", "V3_ofV4Exc_never",
-        "M22_inverseT_ok", "M22_inverseT_error", "M22_inverse_copies", "M22_inverse_failure", "M22_inverseT_tight", "M22_inverseT_never",
-        "M33_inverseT_ok", "M33_inverseT_error", "M33_inverse_copies", "M33_inverse_failure", "M33_inverseT_tight", "M33_inverseT_never",
-        "M44_inverseT_ok", "M44_inverseT_error", "M44_inverse_copies", "M44_inverse_failure_partial", "M44_inverseT_tight", "M44_inverseT_never",
-        "Frustum_aspectExc_ok", "Frustum_aspectExc_error", "Frustum_localToScreenExc_ok", "Frustum_localToScreenExc_error",
-        "Frustum_projectPointToScreenExc_ok", "Frustum_projectPointToScreenExc_error", "Frustum_projectionMatrixExc_ok",
-        "Frustum_projectionMatrixExc_persp_error", "Frustum_projectionMatrixExc_ortho_error", "Frustum_projectionMatrixExc_never",
-        "Frustum_normalizedZToDepthExc_ok", "Frustum_normalizedZToDepthExc_error", "Frustum_ZToDepth_concrete", "Frustum_ZToDepthExc_ok",
-        "Frustum_screenRadiusExc_ok", "Frustum_screenRadiusExc_error", "Frustum_worldRadiusExc_ok", "Frustum_worldRadiusExc_error",
-        "Frustum_setFovExc_ok", "Frustum_setFovExc_error"],
-    "ImathVerif.Props.C07GJ": ["M33_gjInverseT_ok", "M33_gjInverseT_error", "M33_gjInverseF_eq", "M33_gjInvert_eq"],
-    "ImathVerif.Props.C07Algo": [
-        "Algo_checkForZeroScaleInRow2", "Algo_checkForZeroScaleInRow3", "Algo_checkForZeroScaleInRow3F_false_iff",
-        "Algo_extractScaling2_pair", "Algo_extractScalingAndShear2_pair", "Algo_extractAndRemoveScalingAndShear2_pair",
-        "Algo_removeScalingAndShear2_pair", "Algo_sansScalingAndShear2_pair", "Algo_extractSHRT2_pair"],
-    # C07's Gauss-Jordan parameters instantiated with C06's proved model (Model/GaussJordan.lean, n = 4): the two hypotheses
-    # of the M44 pair theorems are lemmas there, and the failure equivalence holds in BOTH directions
+    "ImathVerif.Props.C07": """
+        V2_length_zero V2_normalizedExc_ok V2_normalizedExc_error V2_normalized_failure V2_normalizeExc_ok V2_normalizeExc_error
+        V2_normalize_failure V2_inplace_eq_value V2_normalizedExc_never
+        V3_length_zero V3_normalizedExc_ok V3_normalizedExc_error V3_normalized_failure V3_normalizeExc_ok V3_normalizeExc_error
+        V3_normalize_failure V3_inplace_eq_value V3_normalizedExc_never
+        V4_length_zero V4_normalizedExc_ok V4_normalizedExc_error V4_normalized_failure V4_normalizeExc_ok V4_normalizeExc_error
+        V4_normalize_failure V4_inplace_eq_value V4_normalizedExc_never
+        V3_ofV4Exc_ok V3_ofV4Exc_error V3_ofV4Exc_tight V3_ofV4Exc_zero_w V3_ofV4Exc_never
+        M22_inverseT_unexc M22_inverseT_ok M22_inverseT_error M22_inverse_copies M22_inverseT_error_iff M22_inverseT_value
+        M22_inverse_failure M22_inverseT_tight M22_inverseT_tight_quarter M22_inverseT_never
+        M33_inverseT_unexc M33_inverseT_ok M33_inverseT_error M33_inverse_copies M33_inverseT_normal_form M33_inverseT_error_iff
+        M33_inverseT_ok_iff M33_inverseT_ok_one M33_inverse_failure M33_inverseT_tight M33_inverseT_tight_quarter M33_inverseT_never
+        M44_inverseT_unexc M44_inverseT_ok M44_inverseT_error M44_inverse_copies M44_inverseT_normal_form M44_inverseT_error_iff
+        M44_inverse_failure_partial M44_inverseT_tight M44_inverseT_tight_quarter M44_inverseT_never
+        Frustum_aspectExc_ok Frustum_aspectExc_error Frustum_aspectExc_tight Frustum_aspectExc_never Frustum_aspectExc_zero_over_zero
+        Frustum_localToScreenExc_ok Frustum_localToScreenExc_error Frustum_localToScreenExc_never
+        Frustum_projectPointToScreen_persp Frustum_projectPointToScreen_ortho Frustum_projectPointToScreenExc_ok
+        Frustum_projectPointToScreenExc_error Frustum_projectionMatrixExc_ok Frustum_projectionMatrixExc_persp_error
+        Frustum_projectionMatrixExc_ortho_error Frustum_projectionMatrixExc_never
+        Frustum_normalizedZToDepthExc_ok Frustum_normalizedZToDepthExc_error Frustum_ZToDepth_concrete Frustum_ZToDepthExc_ok
+        Frustum_screenRadiusExc_ok Frustum_screenRadiusExc_error Frustum_worldRadiusExc_ok Frustum_worldRadiusExc_error
+        Frustum_radiusExc_tight Frustum_screenRadiusExc_never Frustum_worldRadiusExc_never
+        Frustum_setFovExc_ok Frustum_setFovExc_error""".split(),
+    "ImathVerif.Props.C07GJ": ["M33_gjInverseT_unexc", "M33_gjInverseT_kind", "M33_gjInverseT_ok", "M33_gjInverseT_error", "M33_gjInverseF_eq",
+                               "M33_gjInvert_eq"],
+    "ImathVerif.Props.C07Algo": """
+        Algo_checkForZeroScaleInRow2_pair Algo_checkForZeroScaleInRow3_pair Algo_checkForZeroScaleInRow2 Algo_checkForZeroScaleInRow3
+        Algo_checkForZeroScaleInRow2F_false_iff Algo_checkForZeroScaleInRow3F_false_iff Algo_checkForZeroScaleInRow3_never
+        Algo_extractScaling2_pair Algo_extractScalingAndShear2_pair Algo_extractAndRemoveScalingAndShear2_pair
+        Algo_removeScalingAndShear2_pair Algo_extractSHRT2_pair Algo_sansScalingAndShear2_pair Algo_removeScaling2_pair
+        Algo_sansScaling2_pair Algo_removeScaling2_fails_iff_extractSHRT2 Algo_pair_reading""".split(),
+    # C07's Gauss-Jordan parameters instantiated with C06's proved model (Model/GaussJordan.lean, n = 4): the failure equivalence
+    # in BOTH directions through C06's determinant characterisation
     "ImathVerif.Props.C07Link": [
-        "gj_hok", "gj_herr", "gjF_eq", "gjTs_eq_zero_iff", "gj_eq_one_iff", "M44_inverseT_ok", "M44_inverseT_error", "M44_inverse_copies",
-        "M44_inverseT_error_iff", "M44_inverseT_ok_one", "M44_inverse_failure", "M44_inverse_failure_copies", "M44_inverseT_never"],
+        "gjTs_eq_zero_iff", "gj_eq_one_imp", "gj_eq_one_iff", "M33_adjOverDet_one", "M44_affineInverse_one", "M44_inverseT_ok",
+        "M44_inverseT_error", "M44_inverse_copies", "M44_inverseT_ok_iff", "M44_inverseT_error_iff", "M44_inverseT_ok_one",
+        "M44_inverse_failure", "M44_inverse_failure_copies", "M44_inverseT_never", "M44_inverse0_nonaffine_mul"],
 }
 
 # the one class of input on which the real code is known (by this harness) to break the property; it is reported,
@@ -39,9 +54,153 @@ REQUIRED = {
 OVERFLOW_CLASS = "finite,length"
 
 
+def _m44_fields():
+    return ["x%d%d" % (i, j) for i in range(4) for j in range(4)]
+
+
+def gj_stubs():
+    """Fixed rational stubs for the four Gauss-Jordan PARAMETER functions of the M44 inverse / invert entries, for the Lean-side
+    validation of the emitted text; the same functions as gj44Stub in harness/sym/sym_c07.cpp (different from one another, not
+    symmetric in the slots, so that a wrong parameter or a wrong argument at a call site changes the result)."""
+    f = _m44_fields()
+    def mat(sel, mul, add, cst):
+        es = ["m.%s * ((%d : Rat) / %d) %s + ((%d : Rat) / %d)" % (f[sel(i)], mul(i)[0], mul(i)[1], add(i), cst(i)[0], cst(i)[1]) for i in range(16)]
+        return "(fun (m : M44 Rat) => (⟨" + ", ".join(es) + "⟩ : M44 Rat))"
+    return {
+        "gj44": mat(lambda i: (5 * i + 3) % 16, lambda i: (i + 2, 3), lambda i: "+ m.%s" % f[i], lambda i: (i + 1, 7)),
+        "gj44F": mat(lambda i: (3 * i + 1) % 16, lambda i: (i + 1, 5), lambda i: "- m.%s" % f[i], lambda i: (i + 2, 3)),
+        "gj44Tvalue": mat(lambda i: (7 * i + 2) % 16, lambda i: (i + 3, 2), lambda i: "+ m.%s" % f[15 - i], lambda i: (i + 1, 11)),
+        "gj44Tstatus": "(fun (m : M44 Rat) => if m.x00 + 2 * m.x11 - m.x22 + m.x33 > (1 : Rat) / 2 then (1 : Rat) else 0)",
+    }
+
+
+# ---------------------------------------------------------------------------
+# source tie for the duplicated bodies that cannot be extracted (audit S2): token-level comparison of the two textual copies
+# after deleting `if (singExc) throw ...;`
+
+def _tokens(src):
+    src = re.sub(r"/\*.*?\*/", " ", src, flags=re.S)
+    src = re.sub(r"//[^\n]*", " ", src)
+    src = re.sub(r'"(?:[^"\\]|\\.)*"', '""', src)
+    return re.findall(r"[A-Za-z_][A-Za-z_0-9]*|\d+(?:\.\d+)?|::|->|\+\+|--|[-+*/%<>=!&|^]=|&&|\|\||<<|>>|[^\sA-Za-z_0-9]", src)
+
+
+def _body(text, signature_regex):
+    m = re.search(signature_regex, text)
+    if not m:
+        return None
+    i = text.index("{", m.end())
+    depth, j = 0, i
+    while True:
+        if text[j] == "{":
+            depth += 1
+        elif text[j] == "}":
+            depth -= 1
+            if depth == 0:
+                return text[i:j + 1]
+        j += 1
+
+
+def _normalise(tokens, renames=None):
+    t = list(tokens)
+    out, i = [], 0
+    while i < len(t):
+        # if ( singExc ) throw ... ;
+        if t[i:i + 5] == ["if", "(", "singExc", ")", "throw"]:
+            j = i + 5
+            depth = 0
+            while not (t[j] == ";" and depth == 0):
+                depth += t[j] == "("
+                depth -= t[j] == ")"
+                j += 1
+            i = j + 1
+            continue
+        out.append(t[i]); i += 1
+    t = out
+    # ( singExc )  ->  ( )      (the forwarded flag of invert / Matrix44::inverse)
+    out, i = [], 0
+    while i < len(t):
+        if t[i:i + 3] == ["(", "singExc", ")"]:
+            out += ["(", ")"]; i += 3
+        else:
+            out.append(t[i]); i += 1
+    t = out
+    # m . x [ i ] [ j ]  ->  m [ i ] [ j ]     (member array against operator[]: the copies mix the two spellings)
+    out, i = [], 0
+    while i < len(t):
+        if t[i:i + 3] == [".", "x", "["]:
+            out.append("["); i += 3
+        else:
+            out.append(t[i]); i += 1
+    t = out
+    # { return X ; }  ->  return X ;     (a block that consists of one return statement)
+    changed = True
+    while changed:
+        changed = False
+        for i in range(len(t)):
+            if t[i] == "{" and i + 1 < len(t) and t[i + 1] == "return":
+                j = i + 1
+                while j < len(t) and t[j] not in ("{", "}", ";"):
+                    j += 1
+                if j + 1 < len(t) and t[j] == ";" and t[j + 1] == "}":
+                    t = t[:i] + t[i + 1:j + 1] + t[j + 2:]
+                    changed = True
+                    break
+    if renames:
+        t = [renames.get(x, x) for x in t]
+    return t
+
+
+SIG = {
+    "M33.gjInverse(bool)": r"Matrix33<T>::gjInverse \(bool singExc\) const", "M33.gjInverse()": r"Matrix33<T>::gjInverse \(\) const IMATH_NOEXCEPT",
+    "M44.gjInverse(bool)": r"Matrix44<T>::gjInverse \(bool singExc\) const", "M44.gjInverse()": r"Matrix44<T>::gjInverse \(\) const IMATH_NOEXCEPT",
+    "M33.gjInvert(bool)": r"Matrix33<T>::gjInvert \(bool singExc\)", "M33.gjInvert()": r"Matrix33<T>::gjInvert \(\) IMATH_NOEXCEPT",
+    "M44.gjInvert(bool)": r"Matrix44<T>::gjInvert \(bool singExc\)", "M44.gjInvert()": r"Matrix44<T>::gjInvert \(\) IMATH_NOEXCEPT",
+    "M22.inverse(bool)": r"Matrix22<T>::inverse \(bool singExc\) const", "M22.inverse()": r"Matrix22<T>::inverse \(\) const IMATH_NOEXCEPT",
+    "M33.inverse(bool)": r"Matrix33<T>::inverse \(bool singExc\) const", "M33.inverse()": r"Matrix33<T>::inverse \(\) const IMATH_NOEXCEPT",
+    "M44.inverse(bool)": r"Matrix44<T>::inverse \(bool singExc\) const", "M44.inverse()": r"Matrix44<T>::inverse \(\) const IMATH_NOEXCEPT",
+    "M22.invert(bool)": r"Matrix22<T>::invert \(bool singExc\)", "M22.invert()": r"Matrix22<T>::invert \(\) IMATH_NOEXCEPT",
+    "M33.invert(bool)": r"Matrix33<T>::invert \(bool singExc\)", "M33.invert()": r"Matrix33<T>::invert \(\) IMATH_NOEXCEPT",
+    "M44.invert(bool)": r"Matrix44<T>::invert \(bool singExc\)", "M44.invert()": r"Matrix44<T>::invert \(\) IMATH_NOEXCEPT",
+}
+R33 = {"Matrix33": "MatrixNN", "2": "N-1", "3": "N"}
+R44 = {"Matrix44": "MatrixNN", "3": "N-1", "4": "N"}
+TIES = [(a + "(bool)", a + "()", None, None) for a in
+        ["M33.gjInverse", "M44.gjInverse", "M33.gjInvert", "M44.gjInvert", "M22.inverse", "M33.inverse", "M44.inverse", "M22.invert", "M33.invert", "M44.invert"]]
+TIES += [("M33.gjInverse(bool)", "M44.gjInverse(bool)", R33, R44), ("M33.gjInverse()", "M44.gjInverse()", R33, R44)]
+
+
+def source_ties(chk):
+    """ImathMatrix.h: the checked and the unchecked copy of every inverse / gjInverse body are the same token sequence once
+    `if (singExc) throw ...;` is deleted, and the 3x3 and 4x4 Gauss-Jordan bodies are the same modulo the dimension literals."""
+    text = open(os.path.join(lib.REPO, "src/Imath/ImathMatrix.h")).read()
+    res = {}
+    for a, b, ra, rb in TIES:
+        name = "source-tie: %s = %s %s(ImathMatrix.h, tokens, `if (singExc) throw` deleted)" % (a, b, "modulo the dimension literals " if ra else "")
+        ba, bb = _body(text, SIG[a]), _body(text, SIG[b])
+        if ba is None or bb is None:
+            chk.oblige(name, "source-tie", False, "definition not found")
+            chk.fail(name, "source-tie:%s=%s" % (a, b), "the definition of %s was not found in ImathMatrix.h (signature changed): the tie cannot be checked"
+                     % (a if ba is None else b), {"regex": SIG[a if ba is None else b]}, False)
+            continue
+        ta, tb = _normalise(_tokens(ba), ra), _normalise(_tokens(bb), rb)
+        ok = ta == tb
+        res["%s = %s" % (a, b)] = {"tokens": len(ta), "equal": ok}
+        detail = None
+        if not ok:
+            k = next((i for i in range(min(len(ta), len(tb))) if ta[i] != tb[i]), min(len(ta), len(tb)))
+            detail = {"first_difference_at_token": k, a: " ".join(ta[max(0, k - 12):k + 12]), b: " ".join(tb[max(0, k - 12):k + 12])}
+        chk.oblige(name, "source-tie", ok, detail)
+        if not ok:
+            chk.fail(name, "source-tie:%s=%s" % (a, b),
+                     "the two textual copies differ beyond the `if (singExc) throw`: %s vs %s (an edit to one copy); the pair harness "
+                     "(sampled + exhaustive lattices) says whether they still behave the same" % (a, b), detail, False)
+    chk.extra["source_ties"] = res
+
+
 def run_pairs(chk, binary, n):
     """Run the pair harness on the real code.  Returns {pair: [fail dicts]}."""
-    rc, out = lib.sh([binary, str(chk.seed), str(n)], timeout=3000)
+    rc, out = lib.sh([binary, str(chk.seed), str(n), "lattice"], timeout=3000)
     m = re.search(r"C07PAIRS pairs=(\d+) evals=(\d+) failures=(\d+)", out)
     fails = {}
     for l in out.split("\n"):
@@ -88,23 +247,138 @@ def pair_candidates(theorem):
     return []
 
 
+# ---------------------------------------------------------------------------
+# generator reach (audit W3, W4): what the pair harness must have reached, per pair
+
+NEVER_THROWS = lambda p: "(false)/" in p or p == "Frustum.normalizedZToDepthExc/normalizedZToDepth(ortho)"
+ORACLE = lambda p: "/oracle(" in p
+# pairs with a generator that puts the numerator one ulp below / exactly at / one ulp above max * |divisor|
+STRADDLE = ["V3.ofV4Exc/ofV4", "Frustum.projectionMatrixExc/projectionMatrix(persp)", "Frustum.aspectExc/aspect",
+            "Frustum.localToScreenExc/localToScreen", "Frustum.screenRadiusExc/screenRadius", "Frustum.worldRadiusExc/worldRadius",
+            "Algo.checkForZeroScaleInRow(Vec2)", "Algo.checkForZeroScaleInRow(Vec3)", "Frustum.DepthToZExc/DepthToZ(ortho)",
+            "Frustum.DepthToZExc/DepthToZ(persp)"]
+# classes (substring of the class name, required outcome) that must be non-empty, per pair
+CLASSES = {
+    # |2fn| > max |D|: in binary floating point only D = 0, or D = -n with 2 f n = inf, make it fire (see c07_pairs.cpp)
+    "Frustum.normalizedZToDepthExc/normalizedZToDepth(persp)": [("denominator=0", "threw"), ("denominator-one-ulp-of-z-from-0", "returned"),
+                                                                ("one-ulp-below-guard", "returned"), ("exactly-at-guard", "returned"),
+                                                                ("above-guard(2*far=inf)", "threw"), ("spans", "returned")],
+    "Frustum.ZToDepthExc/ZToDepth": [("zmax=zmin", "threw"), ("inner-guard-fires,denominator=0", "threw"), ("inner-guard-fires,above-guard", "threw"),
+                                     ("inner-guard-passes,exactly-at-guard", "returned"), ("inner-guard-passes,one-ulp-below-guard", "returned"),
+                                     ("inner-guard-passes:", "returned")],
+    "Frustum.aspectExc/aspect": [("0/0", "returned"), ("spans", "threw"), ("spans", "returned")],
+    "Frustum.projectPointToScreenExc/projectPointToScreen": [("p.z=0", "returned"), ("p.z!=0", "returned"), ("p.z!=0", "threw")],
+    "Frustum.DepthToZExc/DepthToZ(persp)": [("depth-guard:", "threw"), ("far-near-guard(persp):far=near", "threw"),
+                                            ("far-near-guard(persp):within-a-few-ulps", "returned"), ("spans", "returned")],
+    "Frustum.DepthToZExc/DepthToZ(ortho)": [("far-near-guard:", "threw"), ("spans", "returned")],
+    "M33.gjInverse(true)/gjInverse()": [("lattice{-1,0,1,2}^9(exhaustive)", "threw"), ("lattice{-1,0,1,2}^9(exhaustive)", "returned")],
+    "M44.gjInverse(true)/gjInverse()": [("lattice{0,1}^16(exhaustive)", "threw"), ("lattice{0,1}^16(exhaustive)", "returned"),
+                                        ("lattice{-1,0,1}^16,<=6-non-zeros(exhaustive)", "threw"), ("lattice{-1,0,1}^16,<=6-non-zeros(exhaustive)", "returned")],
+}
+# exhaustive lattices: the number of matrices is known in advance (float + double)
+LATTICE_TOTALS = {"lattice{-1,0,1,2}^9(exhaustive)": 2 * 4 ** 9, "lattice{0,1}^16(exhaustive)": 2 * 2 ** 16,
+                  "lattice{-1,0,1}^16,<=6-non-zeros(exhaustive)": 2 * 686401}
+# {0,1} 4x4 matrices that are non-singular over the rationals: 22,560 (OEIS A055165); Gauss-Jordan with partial pivoting is exact on them
+NONSINGULAR_01_4x4 = 22560
+ALGO44 = ["extractScaling", "extractScalingAndShear", "extractAndRemoveScalingAndShear", "removeScalingAndShear", "removeScaling",
+          "extractSHRT(M44,Vec3)", "extractSHRT(M44,order)", "extractSHRT(M44,Euler)", "sansScaling", "sansScalingAndShear",
+          "sansScalingAndShear(result,M44)"]
+ALGO33 = ["extractScaling", "extractScalingAndShear", "extractAndRemoveScalingAndShear", "removeScalingAndShear", "removeScaling", "extractSHRT",
+          "sansScaling", "sansScalingAndShear"]
+
+
+def _cls_count(d, frag, outcome):
+    return sum(v for k, v in d.get("by input class and outcome", {}).items() if frag in k and k.endswith(":" + outcome))
+
+
+def reach_obligations(chk, pairs):
+    def ob(name, ok, detail=None):
+        chk.oblige("reach:" + name, "generator-reach", ok, detail)
+        if not ok:
+            chk.fail("reach:" + name, "reach:" + name, "the pair harness did not reach what it must reach: %s (%s); a regression on that side of the guard / at that "
+                     "call site would be invisible" % (name, detail), {"counts": detail}, False)
+    for p, d in sorted(pairs.items()):
+        if ORACLE(p):
+            ob("%s: the independent predicate decides both outcomes" % p, d["threw"] > 0 and d["returned"] > 0, {"must-throw": d["threw"], "must-return": d["returned"]})
+        elif NEVER_THROWS(p):
+            ob("%s: the checked member never throws here" % p, d["threw"] == 0 and d["returned"] > 0, {"threw": d["threw"], "returned": d["returned"]})
+        else:
+            ob("%s: both outcomes reached (threw > 0 and returned > 0)" % p, d["threw"] > 0 and d["returned"] > 0, {"threw": d["threw"], "returned": d["returned"]})
+    for p in STRADDLE:
+        d = pairs.get(p, {})
+        c = {k: _cls_count(d, k, "threw") + _cls_count(d, k, "returned") for k in ["one-ulp-below-guard", "exactly-at-guard", "one-ulp-above-guard"]}
+        ok = all(v > 0 for v in c.values()) and _cls_count(d, "one-ulp-below-guard", "returned") > 0 and _cls_count(d, "one-ulp-above-guard", "threw") > 0
+        ob("%s: numerator one ulp below (returns) / exactly at / one ulp above (throws) max*|divisor|" % p, ok, c)
+    for p, req in sorted(CLASSES.items()):
+        d = pairs.get(p, {})
+        c = {"%s:%s" % (k, o): _cls_count(d, k, o) for k, o in req}
+        ob("%s: input classes %s" % (p, ", ".join(sorted(set(k for k, _ in req)))), all(v > 0 for v in c.values()), c)
+    for p in ["M33.gjInverse(true)/gjInverse()", "M44.gjInverse(true)/gjInverse()"]:
+        d = pairs.get(p, {})
+        for k, total in sorted(LATTICE_TOTALS.items()):
+            if any(k == kk for kk, _ in CLASSES[p]):
+                got = _cls_count(d, k, "threw") + _cls_count(d, k, "returned")
+                ob("%s: %s enumerated completely (%d matrices, float + double)" % (p, k, total), got == total, {"evaluated": got, "expected": total})
+    d = pairs.get("M44.gjInverse(true)/gjInverse()", {})
+    got = _cls_count(d, "lattice{0,1}^16(exhaustive)", "returned")
+    ob("M44.gjInverse(true): returns on exactly the %d non-singular {0,1} matrices (x2 element types)" % NONSINGULAR_01_4x4, got == 2 * NONSINGULAR_01_4x4,
+       {"returned": got, "expected": 2 * NONSINGULAR_01_4x4})
+    # every checkForZeroScaleInRow call site of every decomposition function fails FIRST on some input, and none fails on others
+    sites = {}
+    for fn in ALGO44:
+        name = "Algo.%s(M44)" % fn if "(" not in fn else "Algo." + fn
+        d = pairs.get(name, {})
+        c = {s_: _cls_count(d, "site=" + s_, "threw") for s_ in ["scl.x", "scl.y", "scl.z"]}
+        c["none"] = _cls_count(d, "site=none", "returned")
+        sites[name] = dict(c, **{"maxVal": _cls_count(d, "site=maxVal", "threw")})
+        ob("%s: each call site scl.x / scl.y / scl.z is the first to fail on some input, and no site fails on others" % name, all(v > 0 for v in c.values()), c)
+    for fn in ALGO33:
+        name = "Algo.%s(M33)" % fn
+        d = pairs.get(name, {})
+        c = {s_: _cls_count(d, "site=" + s_, "threw") for s_ in ["scl.x", "scl.y"]}
+        c["none"] = _cls_count(d, "site=none", "returned")
+        sites[name] = dict(c, **{"maxVal": _cls_count(d, "site=maxVal", "threw")})
+        ob("%s: each call site scl.x / scl.y is the first to fail on some input, and no site fails on others" % name, all(v > 0 for v in c.values()), c)
+    chk.extra["algo_first_failing_call_site"] = sites
+    chk.extra["algo_site_maxVal_note"] = ("the normalisation calls checkForZeroScaleInRow (maxVal, row[i]) cannot fail for finite input "
+                                          "(|row[i][j]| <= maxVal < max * maxVal): 0 hits expected and observed")
+    a = pairs.get("Frustum.aspectExc/aspect", {}).get("by input class and outcome", {})
+    chk.extra["observation_aspectExc_zero_over_zero"] = {
+        "inputs with right == left and top == bottom": a.get("0/0:returned", 0) + a.get("0/0:threw", 0),
+        "checked form returned NaN": a.get("0/0:checked-form-returned-NaN", 0),
+        "reading": "header: 'Throw an exception if the aspect ratio is undefined'; 0/0 does not throw, both forms return NaN bit for bit. "
+                   "Not a disagreement of the pair and aspect () has no failure report, so not a C07 violation (theorem Frustum_aspectExc_zero_over_zero "
+                   "states the behaviour); reported to the coordinator as a documentation-level observation"}
+
+
+# coverage floors for the translator validation of the big trees (leaves reached by the TV inputs incl. the small-integer lattice;
+# a part of each enumerated tree is infeasible over an ordered field, so hit = total is not attainable): clean tree, seeds 1-3,
+# quick tier: M33 Gauss-Jordan 345-367 of 1,312, 2-D decomposition 49-58 of 648 / 1,656
+TV_FLOORS = [(r"C07\.M33\.gjInver", 300), (r"C07\.Algo\.(extract|remove|sans)", 40)]
+
+
 def run(chk):
     chk.trusted = ["Lean 4.33 kernel; axioms propext/Classical.choice/Quot.sound at most",
-                   "translator harness/sym (T = Sym path extraction), validated each run: C++ tree vs real instantiation bitwise at float/double, "
-                   "emitted Lean text vs tree at exact rationals",
+                   "translator harness/sym (T = Sym path extraction), validated each run: C++ tree vs real instantiation bitwise at float/double "
+                   "(leaves reached are counted), emitted Lean text vs tree at exact rationals for ALL 98 entries incl. those with opaque calls",
                    "the opaque stand-in for Matrix44::gjInverse (parameter functions; validated against the real members by TV)",
                    "g++ 12 -O1 -ffp-contract=off for the correspondence harness"]
-    chk.assumptions = ["Matrix44 Gauss-Jordan pair, 3-D decomposition functions, 2-D removeScaling/sansScaling, DepthToZ and ZToDepth with "
-                       "non-literal integers: decided by CORRESPONDENCE of the real members on structured inputs, not by theorem",
+    chk.assumptions = ["Matrix44 Gauss-Jordan pair, 3-D decomposition functions, DepthToZ and ZToDepth with non-literal integers: decided by "
+                       "CORRESPONDENCE of the real members (structured inputs; for Gauss-Jordan also exhaustive small-integer lattices and a token-level "
+                       "tie of the source copies), not by theorem",
                        "float decisions at the guards (rounding of max*|d|): probed one ulp either side, not proved",
                        "Props/C07Link: the M44 pair theorems with the Gauss-Jordan parameters instantiated by the C06 hand model "
-                       "(Model/GaussJordan.lean, proved correct in Props/C06); that model is tied to the real gjInverse members by the C06 "
+                       "(Model/GaussJordan.lean, proved correct in Props/C06); the instantiation lemmas gj_hok / gj_herr / gjF_eq are true BY CONSTRUCTION "
+                       "(helper lemmas in Lemmas/C07LinkInst.lean, not obligations); that model is tied to the real gjInverse members by the C06 "
                        "check's harness (c06_inv), which is not re-run here"]
-    chk.rule = ("theorems: all inputs over an ordered field, tmin/tmax/sqrt/tan/atan2 parameters. correspondence (float and double, real "
-                "code, both members of 67 pairs): zero/denormal/tiny/huge/non-finite vectors; w in {0, denormal, <1, >=1}; numerator one ulp "
-                "below/at/above max*|d| for power-of-two d; |det| around 1 and around min*|cofactor|; singular, near-singular, unimodular, "
-                "dyadic, zero-pivot matrices, affine and general; frusta with right-left/top-bottom/far-near from 0 through denormal, <1, "
-                "around 1 to large; p.z and depth near 0; S*H*R*T matrices with zero/tiny/huge scales, parallel rows")
+    chk.rule = ("theorems: all inputs over an ordered field, tmin/tmax/sqrt/sin/cos/tan/atan2 parameters. correspondence (float and double, real "
+                "code, both members of 67 pairs + 2 independent failure predicates): zero/denormal/tiny/huge/non-finite vectors; w in {0, denormal, <1, >=1}; "
+                "numerator one ulp below/at/above max*|d| for power-of-two d at every guard where such an input exists (normalizedZToDepth / ZToDepth: "
+                "denominator 0 and one ulp of z either side, 2*far*near at max*near and overflowing); |det| around 1, around and well below min*|cofactor|; "
+                "singular, near-singular, unimodular, dyadic, zero-pivot matrices, affine and general; ALL 3x3 matrices over {-1,0,1,2}, ALL 4x4 over {0,1} "
+                "and over {-1,0,1} with <= 6 non-zeros through the Gauss-Jordan pairs; frusta with right-left/top-bottom/far-near from 0 through "
+                "denormal, <1, around 1 to large; p.z and depth near 0; S*H*R*T matrices with zero/tiny/huge scales, parallel / zero / in-span rows "
+                "(every checkForZeroScaleInRow call site is the first to fail on some input: obligation per function and site)")
     bins = troute.build_extractors(chk, [dict(name="sym_leaf", source="sym/sym_leaf.cpp"),
                                          dict(name="sym_c07", source="sym/sym_c07.cpp"),
                                          dict(name="c07_pairs", source="corr/c07_pairs.cpp")])
@@ -115,12 +389,27 @@ def run(chk):
             cache["r"] = run_pairs(chk, bins["c07_pairs"], 6000 if chk.thorough else 1500)
         return cache.get("r")
 
+    source_ties(chk)
     if bins.get("sym_leaf") and bins.get("sym_c07"):
         troute.regenerate(chk, bins["sym_leaf"], "leaf")
         index, changed = troute.regenerate(chk, bins["sym_c07"], "c07", idx_deps=[LEAF_IDX])
         troute.tv(chk, bins["sym_c07"], "c07", 300 if chk.thorough else 48, idx_deps=[LEAF_IDX])
+        ph = getattr(chk, "tv_paths", {}).get("c07", {})
+        for rx, floor in TV_FLOORS:
+            sel = {k: v for k, v in ph.items() if re.match(rx, k)}
+            low = {k: v for k, v in sel.items() if v[0] < floor}
+            ok = bool(sel) and not low
+            chk.oblige("tv:c07: every tree %s reaches >= %d leaves (%d trees; small-integer lattice inputs)" % (rx, floor, len(sel)), "translation-validation",
+                       ok, low or None)
+            if not ok:
+                chk.fail("tv:c07", "tv-coverage:" + rx, "translator validation reaches too few leaves of the big trees", {"below_floor": low, "trees": len(sel)}, False)
         if hasattr(troute, "lean_tv"):
-            troute.lean_tv(chk, bins["sym_c07"], "c07", index, n=6 if chk.thorough else 3, idx_deps=[LEAF_IDX])
+            troute.lean_tv(chk, bins["sym_c07"], "c07", index, n=6 if chk.thorough else 3, idx_deps=[LEAF_IDX], param_stubs=gj_stubs())
+            sk = chk.extra.get("lean_tv", {}).get("c07", {}).get("skipped_external_calls")
+            chk.oblige("lean-tv:c07: no entry skipped (entries with opaque calls are validated with exact callees / parameter stubs)", "translation-validation",
+                       sk == 0, {"skipped": sk})
+            if sk:
+                chk.fail("lean-tv:c07", "lean-tv:c07:skipped", "entries with opaque calls were skipped by the Lean-side validation", {"skipped": sk}, False)
 
         def search(name):
             """a pair theorem stopped elaborating: look for a concrete input on which the REAL members of that pair disagree"""
@@ -138,18 +427,19 @@ def run(chk):
                             return dict(f, key="theorem:" + name, found_by="harness/corr/c07_pairs.cpp on the real members of the pair")
             return None
 
-        # build the three theorem files in one (parallel) lake invocation, then audit each on its own so that a failure
+        # build the theorem files in one (parallel) lake invocation, then audit each on its own so that a failure
         # in one file is attributed to that file's theorems only
         lib.lake_build(MODULES)
         for mod in MODULES:
             chk.check_theorems(mod, required=REQUIRED[mod], search=search)
+        chk.extra["helper_lemmas_true_by_construction(not obligations)"] = {"Lemmas/C07LinkInst.lean": ["gj_hok", "gj_herr", "gjF_eq"]}
         for d in [d for d in index if d["name"].endswith("T") or "Exc" in d["name"]][:6]:
             chk.sample({"entry": d["name"], "paths": d.get("paths")})
 
     r = pairs_once()
     if r:
         rc, out, m, fails, pairs = r
-        ran = m is not None and len(pairs) >= 60
+        ran = m is not None and len(pairs) >= 69
         chk.oblige("correspondence: c07_pairs ran over all pairs", "correspondence", ran, None if ran else out[-600:])
         if not ran:
             chk.fail("correspondence", "pairs:run", "pair harness did not run to completion", {"output": out[-2000:]}, False)
@@ -157,8 +447,11 @@ def run(chk):
             chk.count(int(m.group(2)), sum(p["threw"] for p in pairs.values()))
         for pair, d in sorted(pairs.items()):
             ok = d["fails"] == 0
-            chk.oblige("pair:%s: returns => bit-identical; throws (documented kind) <=> unchecked form reports failure" % pair,
-                       "correspondence", ok, None if ok else fails.get(pair, [])[:3])
+            what = ("throws <=> |det| < 1 and a cofactor >= |det| / min () computed independently in long double" if ORACLE(pair) else
+                    "returns => bit-identical; throws (documented kind) <=> unchecked form reports failure")
+            chk.oblige("pair:%s: %s" % (pair, what), "correspondence", ok, None if ok else fails.get(pair, [])[:3])
+        if ran:
+            reach_obligations(chk, pairs)
         # one violation per (pair, kind of disagreement); the vector classes "finite,..." are semantic (what the input IS) and
         # keep their own key, the generator classes of the other pairs are merged (smallest name carries the key, all are listed)
         for pair, fl in sorted(fails.items()):
@@ -169,12 +462,13 @@ def run(chk):
             for (code, sem), group in sorted(groups.items()):
                 group.sort(key=lambda f: (f["input_class"], f["element_type"] != "float"))
                 f = group[0]
-                key = "pairs:%s:%s:%s" % (pair, code, f["input_class"])
+                icls = re.sub(r",site=[A-Za-z.]+$", "", f["input_class"])      # the call-site label is an annotation, not part of the key
+                key = "pairs:%s:%s:%s" % (pair, code, icls)
                 chk.fail("pair:" + pair, key, "real code: %s — %s (input class: %s)" % (pair, f["what"], f["input_class"]),
                          dict(f, all_failing_input_classes=sorted(set(g["input_class"] for g in group))), True)
         chk.extra["pairs"] = pairs
         chk.extra["pairs_decided_by_correspondence_only"] = sorted(
-            p for p in pairs if re.search(r"M44\.gj|\(M44|Algo\.(removeScaling|sansScaling)\(M33\)|Frustum\.ZToDepthExc|DepthToZ", p))
+            p for p in pairs if re.search(r"M44\.gj|\(M44|Frustum\.ZToDepthExc|DepthToZ", p))
         for p in ["V3.ofV4Exc/ofV4", "Frustum.aspectExc/aspect", "M44.gjInverse(true)/gjInverse()", "Algo.extractSHRT(M44,Vec3)"]:
             if p in pairs:
                 chk.sample({"pair": p, **{k: v for k, v in pairs[p].items() if k != "by input class and outcome"}})
